@@ -149,6 +149,37 @@ def run_insert(stmts, tags, feats, nl, nd):
     return out, sorted(todo), bool(gen_feats)
 
 
+def marker_order_level(ctx):
+    """one writer generating TWO features (kern and dist: Latin plus Kannada kerning) with a marker in both hand-written blocks,
+    the blocks in either order: the generated lookups must be defined before either feature references them -- the font
+    compiles, and the kerning of both scripts is applied"""
+    import ufo2ft
+    from fontTools.ttLib import TTFont
+    from harness.otl import Layout
+    glyphs = [{"name": n, "unicodes": [u], "width": 500, "contours": [], "components": [], "anchors": []}
+              for n, u in (("A", 0x41), ("V", 0x56), ("ka-kannada", 0xC95), ("ga-kannada", 0xC97))]
+    kern_block = "feature kern {\n    pos A V -7;\n    # Automatic Code\n} kern;\n"
+    dist_block = "feature dist {\n    # Automatic Code\n} dist;\n"
+    head = "languagesystem DFLT dflt;\nlanguagesystem latn dflt;\nlanguagesystem knda dflt;\nlanguagesystem knd2 dflt;\n"
+    variants = {"kern block first": head + kern_block + dist_block, "dist block first": head + dist_block + kern_block,
+                "dist marker only": head + dist_block, "kern marker only": head + kern_block}
+    for i, (vname, fea) in enumerate(variants.items()):
+        for lib in ("ufoLib2", "defcon")[: 1 + (not ctx.quick())]:
+            desc = {"glyphs": glyphs, "features": fea, "kerning": {("A", "V"): Fr(-50), ("ka-kannada", "ga-kannada"): Fr(-30)}}
+            case = {"features": fea, "variant": vname, "lib": lib, "level": "markers in two blocks of one writer"}
+            ctx.count(); ctx.klass("marker order: " + vname); ctx.nontriv(("mo", vname, lib))
+            try:
+                tt = ufo2ft.compileTTF(build_font(desc, lib), useProductionNames=False)
+                b = io.BytesIO(); tt.save(b); lay = Layout(TTFont(io.BytesIO(b.getvalue())))
+            except Exception as e:
+                ctx.spec_failure(case, "the user's feature file with markers does not compile once the writers have run: %s: %s" % (type(e).__name__, str(e)[:300]))
+                continue
+            a = lay.pair_adjust(lay.lookups_for("latn", {"kern"}), "A", "V")
+            k = lay.pair_adjust(lay.lookups_for("knd2", {"dist", "kern"}), "ka-kannada", "ga-kannada")
+            if k[0] != -30 or a[0] not in (-50, -57, -7):
+                ctx.spec_failure(dict(case, latin=a[:3], kannada=k[:3]), "generated kerning is not applied: A V %r, ka ga %r" % (a[:3], k[:3]))
+
+
 def marker_section(ctx):
     """which comments count as the insertion marker: re.match(INSERT_FEATURE_MARKER, text) against Fea/Marker.v"""
     import re
@@ -176,6 +207,7 @@ def marker_section(ctx):
 
 def explore(ctx):
     marker_section(ctx)
+    marker_order_level(ctx)
     rng = ctx.subrng("insert")
     cases, meta = [], []
     for i in range(ctx.budget(300, 3000)):
